@@ -21,7 +21,9 @@ Class Version := {
   root : ver -> N * N;                  (* root directory offset, length *)
   dir_lookup : ver -> N -> N -> N -> look;   (* findTile in the directory at (offset,length) *)
   leaf_base : ver -> N;
-  tile_base : ver -> N
+  tile_base : ver -> N;
+  meta_off : ver -> N;                  (* metadata section: offset and length in the header *)
+  meta_len : ver -> N
 }.
 
 Section Server.
@@ -33,7 +35,8 @@ Definition hdrkey (n:N) := mkK n 0 0 0.
 
 Inductive payload := PHeader (v:ver) | PDir (v:ver) (o l:N).
 Record cval := mkV { cv_pay : option payload; cv_etag : N; cv_ok : bool; cv_bad : bool }.
-Record treq := mkQ { t_name : N; t_z : N; t_ext : N; t_id : N }.
+(* t_kind: 0 = tile request, 1 = /name/metadata, 2 = /name.json (TileJSON); the last two read the metadata section *)
+Record treq := mkQ { t_name : N; t_z : N; t_ext : N; t_id : N; t_kind : N }.
 Inductive resp := R200 (v:ver) (o l:N) | R204 | R404 | R400 | R500.
 
 Inductive hstate :=
@@ -63,8 +66,11 @@ Fixpoint walk (v:ver) (o l id:N) (fuel:nat) : resp :=
     | LTile to tl => R200 v (tile_base v + to) tl
     | LLeaf lo ll => walk v (leaf_base v + lo) ll id f
     end end.
+(* base of the offsets a handler reads with its final conditional read: the tile data for tiles, 0 for the metadata section *)
+Definition rbase (v:ver) (q:treq) : N := if t_kind q =? 0 then tile_base v else 0.
 Definition answer (v:ver) (q:treq) : resp :=
-  if negb (zoom_ok v (t_z q)) then R404 else if negb (ext_ok v (t_ext q)) then R400
+  if negb (t_kind q =? 0) then R200 v (meta_off v) (meta_len v)
+  else if negb (zoom_ok v (t_z q)) then R404 else if negb (ext_ok v (t_ext q)) then R400
   else walk v (fst (root v)) (snd (root v)) (t_id q) 4.
 
 Fixpoint lookup {A} (k:key) (m:list (key*A)) : option A :=
@@ -94,7 +100,8 @@ Definition deliver (m:nat) (h:hstate) (cv:cval) : hout :=
       if negb (cv_ok cv) then HO None None (Some (q, R404))
       else match cv_pay cv with
            | Some (PHeader hv) =>
-               if negb (zoom_ok hv (t_z q)) then HO None None (Some (q, R404))
+               if negb (t_kind q =? 0) then HO (Some (HWaitTile q a hv (meta_off hv) (meta_len hv))) None None   (* getHeaderMetadataAttempt *)
+               else if negb (zoom_ok hv (t_z q)) then HO None None (Some (q, R404))
                else if negb (ext_ok hv (t_ext q)) then HO None None (Some (q, R400))
                else HO (Some (HWaitDir m q a hv (fst (root hv)) (snd (root hv)) 0))
                        (Some (mkK (t_name q) (vtag hv) (fst (root hv)) (snd (root hv)), 0)) None
@@ -182,7 +189,7 @@ Inductive step : sys -> sys -> Prop :=
     get_handler rid (handlers s) = Some (HWaitTile q a hv o l) ->
     step s (match cur s (t_name q) with
             | None => apply_out s rid (HO None None (Some (q, R404)))
-            | Some v => if vtag v =? vtag hv then apply_out s rid (HO None None (Some (q, R200 v (tile_base hv + o) l)))
+            | Some v => if vtag v =? vtag hv then apply_out s rid (HO None None (Some (q, R200 v (rbase hv q + o) l)))
                         else apply_out s rid (retry (next s) q a hv)
             end)
 | SFetchFail s pre k post bad :      (* the bucket call of a fetch fails: any error (bad = refresh-required class), or bytes that do not parse *)
@@ -281,7 +288,7 @@ Definition exec (s:sys) (l:label) : option sys :=
       | Some (HWaitTile q a hv o l) =>
           Some (match cur s (t_name q) with
                 | None => apply_out s rid (HO None None (Some (q, R404)))
-                | Some v => if vtag v =? vtag hv then apply_out s rid (HO None None (Some (q, R200 v (tile_base hv + o) l)))
+                | Some v => if vtag v =? vtag hv then apply_out s rid (HO None None (Some (q, R200 v (rbase hv q + o) l)))
                             else apply_out s rid (retry (next s) q a hv)
                 end)
       | _ => None
